@@ -8,9 +8,13 @@ Tie to the code (model: coq/theories/StateMachine.v, theorems: coq/props/C17.v):
                     entries incl. 0 and 1 (sole 1, 1 plus others, two 1s, all 0, total > 1, total = 1 + 2^-30), rows whose
                     decision boundary is EXACTLY the simulant's own draw (the draw is read first) or one ulp off it,
                     random current states (incl. a state the machine does not know), untracked simulants, permuted
-                    request subsets, 1-2 calls per context at successive time steps.  A probe listener reads the draws of
-                    EVERY transition set's real stream for every simulant at the same clock time, snapshots the state
-                    table, calls Machine.transition and snapshots again.
+                    request subsets (ascending, reversed, shuffled, built by Index.append), 1-2 calls per context at
+                    successive time steps, births between calls, and - in about 60% of the contexts - common random numbers
+                    (1-2 registered key columns).  A probe listener reads the draw of EVERY transition set's real stream for
+                    every simulant at the same clock time by SINGLE-simulant get_draw requests (so the model's draws do not
+                    depend on the order the machine uses), snapshots the state table, calls Machine.transition and snapshots
+                    again; in half of the calls it first runs the same request in another order and two simulants on their
+                    own (state column restored in between) - C17_local observed directly.
   stream `tset`     stand-alone TransitionSets (real Transition / Trigger objects, set_active / set_inactive histories)
                     whose stream is a stub that hands chosen draws to the real `_choice`: boundary-exact draws, draw 0.0
                     (finding F-G when the first weight is 0), 1 - 2^-53, small denominators.
@@ -261,13 +265,19 @@ def gen_machine(rng):
     n = rng.choice([1, 2, 3, 4, 5, 6, 8, 10])
     bad_case = rng.random() < 0.15
     ncalls = rng.choice([1, 1, 2])
+    # common random numbers: key columns registered with the randomness manager (the draw of a simulant is then looked up
+    # through the IndexMap by ITS key, whatever the order of the request)
+    crn = rng.choice([[], [], ["uid"], ["uid"], ["entrance_time", "uid"]])
     calls = []
+    nc = n
     for c in range(ncalls):
+        births = rng.choice([0, 0, 0, 1, 2, 3]) if (c > 0 or rng.random() < 0.5) else 0
+        nc += births
         rows = []
         bad_budget = 1 if bad_case else 0
         for s in states:
             per = []
-            for l in range(n):
+            for l in range(nc):
                 if bad_budget and rng.random() < 0.15:
                     kind = rng.choice(ROW_KINDS_BAD); bad_budget -= 1
                 else:
@@ -283,21 +293,34 @@ def gen_machine(rng):
             for ti, t in enumerate(s["trans"]):
                 if t["trigger"] is not None:
                     for _ in range(rng.choice([0, 1, 1, 2, 3])):
-                        labs = rng.sample(range(n), rng.randint(0, n))
+                        labs = rng.sample(range(nc), rng.randint(0, nc))
                         ops.append([si, ti, rng.random() < 0.7, labs])
         r = rng.random()
         if r < 0.5:
-            idx = list(range(n))
+            idx = list(range(nc))
         elif r < 0.9:
-            idx = rng.sample(range(n), rng.randint(0, n))
+            idx = rng.sample(range(nc), rng.randint(0, nc))
         else:
-            idx = [rng.randrange(n)]
-        rng.shuffle(idx)
-        calls.append({"rows": rows, "ops": ops, "idx": idx,
-                      "untrack": [l for l in range(n) if rng.random() < 0.12],
-                      "retrack": [l for l in range(n) if rng.random() < 0.05]})
-    assign = [rng.randrange(ns) if rng.random() > 0.05 else -1 for _ in range(n)]      # -1: a state the machine does not know
-    return {"states": states, "n": n, "assign": assign, "calls": calls}
+            idx = [rng.randrange(nc)]
+        # the ORDER and the construction of the request: ascending, reversed, shuffled, two ascending runs appended
+        order = rng.choice(["asc", "desc", "shuffled", "shuffled", "append", "append"])
+        idx.sort()
+        split = 0
+        if order == "desc":
+            idx.reverse()
+        elif order == "shuffled":
+            rng.shuffle(idx)
+        elif order == "append" and len(idx) >= 2:
+            k = rng.randrange(1, len(idx))
+            idx = idx[k:] + idx[:k]                   # Index(high part).append(Index(low part))
+            split = len(idx) - k
+        calls.append({"rows": rows, "ops": ops, "idx": idx, "order": order, "split": split, "births": births,
+                      "local": rng.random() < 0.5,
+                      "untrack": [l for l in range(nc) if rng.random() < 0.12],
+                      "retrack": [l for l in range(nc) if rng.random() < 0.05]})
+    assign = [rng.randrange(ns) if rng.random() > 0.05 else -1 for _ in range(nc)]     # -1: a state the machine does not know
+    uids = rng.sample(range(0, 100000), nc)
+    return {"states": states, "n": n, "assign": assign, "calls": calls, "crn": crn, "uids": uids}
 
 
 # ----------------------------------------------------------------------------------------------------------------
@@ -341,11 +364,21 @@ def execute_machine(case):
     machine, objs, trans = build_machine(case, tables)
     log = {"calls": [], "errors": []}
     n = case["n"]
+    crn = list(case.get("crn", []))
+    uids = case.get("uids") or list(range(len(case["assign"])))
+
+    def request_index(call, idx=None):
+        """the pd.Index handed to Machine.transition, built the way the case says"""
+        idx = list(call["idx"]) if idx is None else idx
+        k = call.get("split", 0)
+        if call.get("order") == "append" and 0 < k < len(idx):
+            return pd.Index(idx[:k], dtype="int64").append(pd.Index(idx[k:], dtype="int64"))
+        return pd.Index(idx, dtype="int64")
 
     class C17Driver(Component):
         @property
         def columns_created(self):
-            return ["st", "other", "marker"]
+            return ["st", "other", "marker", "uid", "entrance_time"]
 
         @property
         def columns_required(self):
@@ -353,54 +386,90 @@ def execute_machine(case):
 
         def setup(self, builder):
             self.k = 0
+            self.register = builder.randomness.register_simulants
+            self.creator = builder.population.get_simulant_creator()
             builder.event.register_listener("time_step", self.go)
 
         def on_initialize_simulants(self, pop_data):
             idx = pop_data.index
-            self.population_view.update(pd.DataFrame({
+            df = pd.DataFrame({
                 "st": pd.Series([sname(case["assign"][int(l)]) for l in idx], index=idx, dtype="str"),
                 "other": pd.Series([int(l) * 7 + 1 for l in idx], index=idx, dtype="int64"),
-                "marker": pd.Series([f"m{int(l)}" for l in idx], index=idx, dtype="str")}))
+                "marker": pd.Series([f"m{int(l)}" for l in idx], index=idx, dtype="str"),
+                "uid": pd.Series([int(uids[int(l)]) for l in idx], index=idx, dtype="int64"),
+                "entrance_time": pd.Series(pop_data.creation_time, index=idx)})
+            self.population_view.update(df)
+            if crn and len(idx):
+                self.register(df[crn])
+
+        def _restore(self, before):
+            self.population_view.subview(["st"]).update(pd.Series(list(before["st"]), index=before.index, name="st", dtype="str"))
+
+        def _attempt(self, before, index, event):
+            """one Machine.transition from the state `before`: (state column afterwards, exception); state restored"""
+            err = None
+            try:
+                machine.transition(index, event.time)
+            except Exception as e:
+                err = e
+            col = {int(l): v for l, v in sim.get_population(untracked=True)["st"].items()}
+            self._restore(before)
+            return col, err
 
         def go(self, event):
             if self.k >= len(case["calls"]):
                 return
             call = case["calls"][self.k]
             self.k += 1
-            labels = pd.Index(range(n))
-            # the draws of every transition set's stream, for everybody, at this clock time
+            if call.get("births", 0):
+                self.creator(int(call["births"]), {"sim_state": "time_step"})
+            labs = [int(l) for l in sim.get_population(untracked=True).index]
+            # the draws of every transition set's stream at this clock time, asked for ONE simulant at a time: a
+            # simulant's own draw must not depend on the company or the order in which it is requested (C02)
             draws = {}
             for si, st in enumerate(objs):
-                d = st.transition_set.random.get_draw(labels)
-                draws[si] = [int(x * B53) for x in d]
-                if any(a / B53 != x for a, x in zip(draws[si], d)):
-                    log["errors"].append("a draw is not a multiple of 2^-53")
+                draws[si] = {}
+                for l in labs:
+                    x = float(st.transition_set.random.get_draw(pd.Index([l], dtype="int64")).iloc[0])
+                    draws[si][l] = int(x * B53)
+                    if draws[si][l] / B53 != x:
+                        log["errors"].append("a draw is not a multiple of 2^-53")
             nums = {}
             for si, s in enumerate(case["states"]):
-                for l in range(n):
+                for l in labs:
                     nums[(si, l)] = resolve_row(call["rows"][si][l], draws[si][l], s["null"])
                 for ti in range(len(s["trans"])):
-                    tables[(si, ti)] = {l: nums[(si, l)][ti] / B53 for l in range(n)}
+                    tables[(si, ti)] = {l: nums[(si, l)][ti] / B53 for l in labs}
                     if any(int(v * B53) != nums[(si, l)][ti] for l, v in tables[(si, ti)].items()):
                         log["errors"].append("a probability is not exactly representable")
-            for si, ti, on, labs in call["ops"]:
-                (trans[(si, ti)].set_active if on else trans[(si, ti)].set_inactive)(pd.Index(labs, dtype="int64"))
-            for labs, val in ((call["untrack"], False), (call["retrack"], True)):
-                if labs:
+            for si, ti, on, ls in call["ops"]:
+                (trans[(si, ti)].set_active if on else trans[(si, ti)].set_inactive)(pd.Index(ls, dtype="int64"))
+            for ls, val in ((call["untrack"], False), (call["retrack"], True)):
+                if ls:
                     self.population_view.subview(["tracked"]).update(
-                        pd.Series([val] * len(labs), index=pd.Index(labs), name="tracked"))
+                        pd.Series([val] * len(ls), index=pd.Index(ls), name="tracked"))
             before = sim.get_population(untracked=True).copy()
+            # C17_local on the real code: the same request in another order, and a few simulants on their own (same clock
+            # time, same tables, same active sets; the state column is put back after every attempt)
+            local = None
+            if call.get("local") and call["idx"]:
+                idx = list(call["idx"])
+                other = sorted(idx) if idx != sorted(idx) else sorted(idx, reverse=True)
+                local = {"other": self._attempt(before, pd.Index(other, dtype="int64"), event), "alone": {}}
+                for l in idx[:1] + idx[-1:]:
+                    local["alone"][l] = self._attempt(before, pd.Index([l], dtype="int64"), event)
             err = None
             try:
-                machine.transition(pd.Index(call["idx"], dtype="int64"), event.time)
+                machine.transition(request_index(call), event.time)
             except Exception as e:
                 err = e
             after = sim.get_population(untracked=True).copy()
-            log["calls"].append({"draws": draws, "nums": nums, "before": before, "after": after, "err": err})
+            log["calls"].append({"draws": draws, "nums": nums, "before": before, "after": after, "err": err, "local": local})
 
     drv = C17Driver()
     sim = SimulationContext(components=[drv, machine], configuration={
         "population": {"population_size": n},
+        "randomness": {"map_size": 400, "key_columns": crn},
         "time": {"start": {"year": 2005, "month": 7, "day": 1}, "end": {"year": 2005, "month": 8, "day": 1}, "step_size": 1}},
         logging_verbosity=0)
     boot.quiet_logging()
@@ -462,11 +531,14 @@ def run_machine(case):
         code = 0 if rec["err"] is None else (1 if isinstance(rec["err"], ValueError) else 2)
         if code == 2:
             fail(f"call {ci}: unexpected exception {rec['err']!r}")
+        n = len(before.index)                       # simulants alive at this call (labels 0..n-1; births add labels)
+        if [int(l) for l in before.index] != list(range(n)):
+            fail(f"harness: labels are not 0..{n - 1}")
         st_before = {int(l): before.at[l, "st"] for l in before.index}
         st_after = {int(l): after.at[l, "st"] for l in after.index}
         tracked = {int(l): bool(before.at[l, "tracked"]) for l in before.index}
         # ---------------- oracle ----------------
-        for col in ("other", "marker", "tracked"):
+        for col in ("other", "marker", "tracked", "uid", "entrance_time"):
             if not before[col].equals(after[col]):
                 fail(f"call {ci}: column {col} changed")
         if list(before.index) != list(after.index):
@@ -561,21 +633,46 @@ def run_machine(case):
                          f"{draws[si][l]}/2^53 select {sname(expected[l]) if expected[l] is not None else None}")
                 if sa == si and si not in successors(si) and not (states[si]["null"] or not states[si]["trans"]):
                     fail(f"call {ci}: simulant {l} stayed in {st_before[l]} which allows no self transition")
+        # C17_local, directly on the implementation: same request in another order / a simulant on its own
+        if rec.get("local"):
+            tags.append("local_checked")
+            ocol, oerr = rec["local"]["other"]
+            if (oerr is None) != (rec["err"] is None):
+                fail(f"call {ci}: the request {call['idx']} ended with {rec['err']!r} but the same simulants in another order with {oerr!r}")
+            elif oerr is None:
+                for l in call["idx"]:
+                    if ocol[l] != st_after[l]:
+                        fail(f"call {ci}: simulant {l} ends in {st_after[l]} when requested as {call['idx']} but in {ocol[l]} "
+                             f"when the same simulants are requested in another order")
+            for l, (acol, aerr) in rec["local"]["alone"].items():
+                l = int(l)
+                if aerr is None and rec["err"] is None and acol[l] != st_after[l]:
+                    fail(f"call {ci}: simulant {l} ends in {st_after[l]} together with {call['idx']} but in {acol[l]} on its own")
+                if aerr is None:
+                    for l2 in range(n):
+                        if l2 != l and acol[l2] != st_before[l2]:
+                            fail(f"call {ci}: transitioning simulant {l} alone moved simulant {l2}")
+                if aerr is not None and rec["err"] is None:
+                    fail(f"call {ci}: simulant {l} alone raised {aerr!r} but the whole request did not")
         # ---------------- Coq ----------------
         sts = []
         for si, s in enumerate(states):
             ts = []
             for ti, t in enumerate(s["trans"]):
-                table = clist(cpair(z(l), z(nums[(si, l)][ti])) for l in range(n))
+                table = clist(cpair(z(l), z(nums[(si, l)][ti])) for l in range(n) if nums[(si, l)][ti] != 0)   # absent = 0
                 trig = "None" if t["trigger"] is None else "(Some " + clist(cpair(cbool(on), zl(labs)) for on, labs in ops_hist[(si, ti)]) + ")"
                 ts.append(cpair(z(t["to"]), table, trig))
             sts.append(cpair(z(si), cbool(s["null"]), cbool(s["transient"]), z(ranks[si]), clist(ts)))
-        dr = clist(cpair(z(si), clist(cpair(z(l), z(draws[si][l])) for l in range(n))) for si in range(ns))
+        # (a state without transitions never consults its stream)
+        dr = clist(cpair(z(si), clist(cpair(z(l), z(draws[si][l])) for l in range(n))) for si in range(ns) if states[si]["trans"])
         rows = clist(cpair(z(l), cbool(tracked[l]), z(ids.get(st_before[l], 99))) for l in range(n))
         aft = clist(cpair(z(l), z(ids.get(st_after[l], 98))) for l in range(n))
         coq_calls.append("(" + cpair(z(B53), z(null_rank), clist(sts), z(B53), dr, rows, zl(call["idx"]), nat(ns + 2), z(code), aft)
                          + " : machine_case)")
         tags.append(f"code{code}")
+        tags.append(f"order_{call.get('order', 'plain')}")
+        if call.get("births"):
+            tags.append("births")
         kinds = {call["rows"][ids[st_before[l]]][l]["kind"] for l in call["idx"]
                  if tracked[l] and st_before[l] in ids and ids[st_before[l]] != 99 and states[ids[st_before[l]]]["trans"]}
         tags += [f"row_{k}" for k in sorted(kinds)]
@@ -583,6 +680,7 @@ def run_machine(case):
             tags.append("somebody_moved")
         if any(states[ids[st_after[l]]]["transient"] for l in range(n) if st_after[l] in ids and ids[st_after[l]] != 99 and st_before[l] != st_after[l]):
             tags.append("stopped_in_transient")
+    tags.append(f"crn{len(case.get('crn', []))}")
     if any(s["transient"] for s in states):
         tags.append("has_transient")
     if any(t["trigger"] for s in states for t in s["trans"]):
@@ -804,7 +902,7 @@ def streams(tier):
     imp = "From Viv Require Import Common StateMachine."
     return [
         Stream(name="machine", imports=imp, check="(forallb check_machine)", gen=gen_machine, run=run_machine,
-               n_quick=220, n_thorough=2000, corpus=lambda: _corpus("machine"),
+               n_quick=180, n_thorough=2000, corpus=lambda: _corpus("machine"),
                doc="Machine.transition on real contexts with the draws of the real streams"),
         Stream(name="tset", imports=imp, check="check_tset", gen=gen_tset, run=run_tset, n_quick=500, n_thorough=6000,
                corpus=lambda: _corpus("tset"), finding_of=finding_of_tset,
